@@ -107,3 +107,10 @@ Proof.
 Qed.
 Print Assumptions C04_transpositions_of_legal_games_have_equal_keys.
 
+(* taking a move back leaves the key invariant intact: the key is again the from-scratch key and the closed function of the position *)
+From CV Require Import Engine.RepRefineLegal Engine.UndoInv.
+Theorem C04_undo_restores_the_key_invariant :
+  forall (zt : zobrist) (s : rep) (m : move), rep_ok s -> key_inv zt s -> pseudo_legal (rep_abs s) m = true ->
+    key_inv zt (undo_move zt (fst (do_move zt s (enc m))) (enc m) (snd (do_move zt s (enc m)))).
+Proof. exact undo_do_key_inv. Qed.
+Print Assumptions C04_undo_restores_the_key_invariant.
